@@ -4,7 +4,7 @@
 set -u
 P=$1; X=$2; TIER=${3:-quick}
 WT=/tmp/seed-$P; SRC=/tmp/seed-out/$P/$X
-if [ "${ROUND:-1}" = "2" ]; then WT=/tmp/seed2-$P; SRC=/tmp/seed-out/$P-r2/$X; fi
+R=${ROUND:-1}; if [ "$R" != "1" ]; then WT=/tmp/seed$R-$P; SRC=/tmp/seed-out/$P-r$R/$X; fi
 export GOFLAGS=-mod=mod GOPROXY=off GOSUMDB=off GOTOOLCHAIN=local
 cd $WT || exit 2
 git checkout -q -- . ; git clean -fdq
